@@ -49,7 +49,7 @@ func runC01(c *Ctx) bool {
 	if !c.Quick() {
 		extremes = append(extremes, func() ([]int, []string) { return chain(1500), nil })
 	}
-	for _, w := range []int{31, 32, 33, 34, 63, 64, 65, 66, 127, 128, 129, 255, 256, 257} {
+	for _, w := range gen.WideSizes {
 		w := w
 		extremes = append(extremes, func() ([]int, []string) {
 			d, n := gen.WideDup(w, []int{0, w / 2, w - 2, w - 1})
@@ -65,6 +65,9 @@ func runC01(c *Ctx) bool {
 	}
 	extremes = append(extremes, func() ([]int, []string) {
 		d, n := gen.LongDup()
+		return d, append([]string{"\x00given"}, n...)
+	}, func() ([]int, []string) {
+		d, n := gen.TwinSiblings() // different sibling names with equal digests
 		return d, append([]string{"\x00given"}, n...)
 	})
 	for k, mk := range extremes {
